@@ -5,6 +5,7 @@ import sys
 import time
 
 ROOT = os.path.dirname(os.path.dirname(os.path.abspath(__file__)))
+OUT = os.environ.get("VERIF_OUT") or ROOT      # evidence / replays directory (scratch runs only)
 
 PROVED, REFUTED, UNDECIDED = "PROVED", "REFUTED", "UNDECIDED"
 
@@ -112,7 +113,7 @@ class Ledger:
                 violations.append(o)
         for fid, (f, obs) in known_hit.items():
             print(f"KNOWN-FINDING: property={self.prop} {f['what']} [{fid}; {len(obs)} obligation(s), e.g. {obs[0].name}]")
-        rdir = os.path.join(ROOT, "replays", self.prop)
+        rdir = os.path.join(OUT, "replays", self.prop)
         for o in violations:
             os.makedirs(rdir, exist_ok=True)
             safe = "".join(ch if ch.isalnum() or ch in "-_.," else "_" for ch in o.name)[:150]
@@ -122,7 +123,7 @@ class Ledger:
                 json.dump({"property": self.prop, "obligation": o.name, "function": o.fn, "backend": o.backend,
                            "tier": o.tier, "replayed_on_real_code": replayed, "detail": jsonable(o.detail)}, fh, indent=1)
             tail = "" if replayed else " no-failing-input-found"
-            print(f"VIOLATION property={self.prop} replay={os.path.relpath(path, ROOT)}{tail}")
+            print(f"VIOLATION property={self.prop} replay={os.path.relpath(path, OUT)}{tail}")
         P = [o for o in self.obs if o.tier == "P"]
         Bt = [o for o in self.obs if o.tier == "B"]
         proved = [o for o in P if o.status == PROVED]
@@ -167,10 +168,10 @@ class Ledger:
             "wall_s": round(time.time() - self.t0, 2),
             "violations": len(violations),
         }
-        os.makedirs(os.path.join(ROOT, "evidence"), exist_ok=True)
-        with open(os.path.join(ROOT, "evidence", f"{self.prop}.json"), "w") as fh:
+        os.makedirs(os.path.join(OUT, "evidence"), exist_ok=True)
+        with open(os.path.join(OUT, "evidence", f"{self.prop}.json"), "w") as fh:
             json.dump(ev, fh, indent=1)
-        with open(os.path.join(ROOT, "evidence", f"{self.prop}.obligations.json"), "w") as fh:
+        with open(os.path.join(OUT, "evidence", f"{self.prop}.obligations.json"), "w") as fh:
             json.dump([o.to_json() for o in self.obs], fh, indent=0)
         print(f"[{self.prop}] tier={self.tier} P-obligations={len(P)} discharged={len(proved)} "
               f"undecided={len(undec)} known-finding={known_failed} bounded={len(Bt)} "
